@@ -216,6 +216,9 @@ def _expand_partial_output(partial, sl_map, output_unroll_info):
     if not partial.struct.t:
         return partial  # empty tensor: nothing to expand
 
+    # output axes in output_unroll_info are logical; blocks below are addressed in native order
+    partial = partial.consume_transpose()
+
     config = partial.config
     backend = config.backend
     nsym = config.sym.NSYM
